@@ -61,6 +61,12 @@ CLAIMS = {
     note="The claim is: the bookkeeping half of C13 is decided (violated, site-keyed finding), the directory half is proved. Not covered: the first-instance-wins global fsync schedule (GLOBAL_FSYNC_SCHEDULE.set result ignored), SharedMmapKeeper sharing, interleavings of instance operations beyond atomic steps.",
     technique="contract-based deductive verification (Verus/Z3) of extracted real functions; native replay of the failing history",
     design="4/C13"),
+ "C24": dict(
+    level="proof",
+    text="handle_connection and send_response of client.rs are extracted (async/await removed) and verified over a ghost byte stream for ALL client byte streams: send_response writes exactly one length-prefixed frame; the loop invariant says the reader always stands on a frame boundary of the input and that the output consists of exactly one response frame per consumed input frame, in order (one inductive definition of 'frame' = 4-byte LE length + that many bytes, used for both directions); a clean return only happens when fewer than 4 bytes remain after the last whole frame; only lengths 0 or > 64 KiB are rejected unread. The one failing obligation - the reader is off the frame boundary after rejecting an oversized header - is a genuine defect, replayed natively (real client.rs over an in-memory tokio shim: 3 frames -> 16386 responses) and listed as a known finding.",
+    note="Trusted: tokio read_exact/write_all semantics on the ghost stream, from_utf8/trim_end/as_bytes stubs (UTF-8 length uninterpreted; responses assumed to fit u32), R13 (one task per connection). handle_command is an arbitrary function in this unit, so the PUT/GET payload round trip is not yet under contract (the native family checks it on a small grid only).",
+    technique="contract-based deductive verification (Verus/Z3): loop invariant over a ghost stream on the extracted real function; native replay through a shimmed build of the real file",
+    design="4/C24"),
 }
 
 NOT_APPLICABLE = {
